@@ -32,6 +32,20 @@ STDLIB_AXIOMS = {
     "Classical_Prop.classic",
 }
 
+# primitive float / int63 constants show up under "Axioms:" in Print Assumptions; they are
+# the kernel's native binary64 / 63-bit integer primitives, not declared axioms
+FLOAT_PRIMS = {"float", "add", "sub", "mul", "div", "sqrt", "ltb", "leb", "eqb", "abs", "opp", "compare",
+               "classify", "normfr_mantissa", "frshiftexp", "ldshiftexp", "of_uint63", "next_up", "next_down",
+               "PrimFloat.float", "PrimFloat.add", "PrimFloat.sub", "PrimFloat.mul", "PrimFloat.div",
+               "PrimFloat.sqrt", "PrimFloat.ltb", "PrimFloat.leb", "PrimFloat.eqb", "PrimFloat.abs", "PrimFloat.opp",
+               "PrimFloat.compare", "PrimFloat.classify", "PrimFloat.normfr_mantissa", "PrimFloat.frshiftexp",
+               "PrimFloat.ldshiftexp", "PrimFloat.of_uint63", "PrimFloat.next_up", "PrimFloat.next_down"}
+
+
+def is_primitive(name):
+    return name in FLOAT_PRIMS or name.startswith("PrimInt63.") or name.startswith("Uint63.") and False
+
+
 TRUSTED_BASE_COMMON = [
     "Coq 8.16.1 kernel incl. the vm_compute reduction machine (native_compute not used)",
     "hand-written Gallina model under /verif/coq/Model tied to /repo by the correspondence harness /verif/vcheck (Python 3.12, NumPy) - differential testing, not proof",
@@ -131,9 +145,14 @@ class Ctx:
                 rc, out, _ = sh("coq_makefile -f _CoqProject -o Makefile", cwd=COQ)
                 if rc != 0:
                     return False, out
-            rc, out, dt = sh("timeout 1500 make -j%d" % (os.cpu_count() or 4), timeout=1600, cwd=COQ)
+            rc, out, dt = sh("timeout 1500 make -k -j%d" % (os.cpu_count() or 4), timeout=1600, cwd=COQ)
             self.notes["coq_make_s"] = round(dt, 1)
-            return rc == 0, out
+            # only this property's own statement file (and hence everything it depends on) must have built
+            ok = os.path.exists(os.path.join(COQ, "Properties", self.prop + ".vo")) and \
+                os.path.getmtime(os.path.join(COQ, "Properties", self.prop + ".vo")) >= os.path.getmtime(os.path.join(COQ, "Properties", self.prop + ".v"))
+            if rc != 0:
+                self.notes["coq_make_other_failures"] = out[-600:]
+            return ok, out
         finally:
             fcntl.flock(lock, fcntl.LOCK_UN)
             lock.close()
@@ -185,7 +204,7 @@ class Ctx:
             return False
         good = True
         for n, axs in zip(names, blocks):
-            ax_ok = all(a in allowed for a in axs)
+            ax_ok = all((a in allowed) or is_primitive(a) for a in axs)
             self.obligations.append((n, ax_ok, axs))
             if not ax_ok:
                 good = False
@@ -268,7 +287,9 @@ class Ctx:
         if extra:
             cov.update(extra)
         lines = []
-        for v in self.violations:
+        # at most 8 replay files per run: concrete inputs first
+        ordered = sorted(self.violations, key=lambda v: v["no_input"])
+        for v in ordered[:8]:
             os.makedirs(os.path.join(VERIF, "replays", self.prop), exist_ok=True)
             body = {"property": self.prop, "tier": self.tier, "seed": self.seed, "kind": v["kind"],
                     "what": v["what"], "detail": v["replay"],
@@ -343,7 +364,7 @@ def parse_assumptions(out):
                 blocks.append(cur)
             cur = []
         elif cur is not None:
-            m = re.match(r"^([A-Za-z_][\w.']*)\s*:", line)
+            m = re.match(r"^([A-Za-z_][\w.']*)\s*(:.*)?$", line)
             if m:
                 cur.append(m.group(1))
             elif line and not line.startswith(" "):
@@ -470,3 +491,64 @@ def write_fingerprints(all_anchors):
             fp["%s:%s" % (relfile, n)] = h
     with open(os.path.join(VERIF, "vcheck", "fingerprints.json"), "w") as f:
         json.dump(fp, f, indent=1, sort_keys=True)
+
+
+# ---------------------------------------------------------------- subprocess workers
+MODES = {
+    "interp": {"NUMBA_DISABLE_JIT": "1", "VCHECK_BLOCK_NUMBA": "0"},
+    "jit": {"NUMBA_DISABLE_JIT": "0", "VCHECK_BLOCK_NUMBA": "0"},
+    "nonumba": {"NUMBA_DISABLE_JIT": "1", "VCHECK_BLOCK_NUMBA": "1"},
+}
+
+
+def run_worker(ctx, target, payload, mode="interp", extra_env=None, timeout=900, tag="w"):
+    """Run vcheck.worker in a child interpreter; returns dict(ok, result|error)."""
+    import pickle
+    inp = os.path.join(ctx.work, "%s_%s_in.pkl" % (tag, mode))
+    outp = os.path.join(ctx.work, "%s_%s_out.pkl" % (tag, mode))
+    pickle.dump(payload, open(inp, "wb"))
+    if os.path.exists(outp):
+        os.remove(outp)
+    env = dict(os.environ)
+    env.update(MODES[mode])
+    if mode == "jit":
+        env.pop("NUMBA_DISABLE_JIT", None)
+        env["NUMBA_CACHE_DIR"] = os.path.join(WORK, "numba_cache")
+    if extra_env:
+        env.update(extra_env)
+    rc, out, dt = sh([PY, "-m", "vcheck.worker", target, inp, outp], timeout=timeout, cwd=VERIF, env=env)
+    if not os.path.exists(outp):
+        return {"ok": False, "error": "worker died rc=%s: %s" % (rc, out[-1500:])}
+    return pickle.load(open(outp, "rb"))
+
+
+def start_worker(ctx, target, payload, mode="interp", extra_env=None, tag="w"):
+    """Asynchronous variant: returns a handle to pass to wait_worker."""
+    import pickle
+    inp = os.path.join(ctx.work, "%s_%s_in.pkl" % (tag, mode))
+    outp = os.path.join(ctx.work, "%s_%s_out.pkl" % (tag, mode))
+    pickle.dump(payload, open(inp, "wb"))
+    if os.path.exists(outp):
+        os.remove(outp)
+    env = dict(os.environ)
+    env.update(MODES[mode])
+    if mode == "jit":
+        env.pop("NUMBA_DISABLE_JIT", None)
+    if extra_env:
+        env.update(extra_env)
+    p = subprocess.Popen([PY, "-m", "vcheck.worker", target, inp, outp], cwd=VERIF, env=env,
+                         stdout=subprocess.PIPE, stderr=subprocess.STDOUT, text=True)
+    return (p, outp)
+
+
+def wait_worker(handle, timeout=900):
+    import pickle
+    p, outp = handle
+    try:
+        out, _ = p.communicate(timeout=timeout)
+    except subprocess.TimeoutExpired:
+        p.kill()
+        return {"ok": False, "error": "worker timed out after %ss" % timeout}
+    if not os.path.exists(outp):
+        return {"ok": False, "error": "worker died rc=%s: %s" % (p.returncode, (out or "")[-1500:])}
+    return pickle.load(open(outp, "rb"))
